@@ -178,7 +178,7 @@ def build_driver():
         if not ok:
             return False, out
         drv = os.path.join(OCAML, "model_driver")
-        srcs = [os.path.join(OCAML, "extracted", "model.ml"), os.path.join(OCAML, "codec.ml"),
+        srcs = [os.path.join(OCAML, "extracted", "model.ml"), os.path.join(OCAML, "codec.ml"), os.path.join(OCAML, "astprint.ml"),
                 os.path.join(OCAML, "driver.ml")]
         if (not os.path.exists(drv)) or any(os.path.getmtime(s) > os.path.getmtime(drv) for s in srcs):
             rc, out2 = run(["sh", os.path.join(OCAML, "build.sh")], cwd=OCAML, timeout=900)
